@@ -3,7 +3,7 @@
 cd "$(dirname "$0")/.."
 for d in ${*:-benign/*}; do
   for s in ${SEEDS:-1}; do
-    n=$(tools/try_benign.sh "$PWD/$d" $s 2>&1 | grep -cE "^(VIOLATION|KNOWN|PATCH)")
+    n=$(tools/try_benign.sh "$PWD/$d" $s 2>&1 | grep -cE "^(VIOLATION|PATCH)")
     echo "$(basename $d) seed $s: $n alarm(s)"
   done
 done
